@@ -208,6 +208,10 @@ pub fn key_id_values() -> Vec<(String, KeyIdSpec)> {
         ("pre 32 (high bit)".into(), KeyIdSpec::Pre((0..32u8).map(|i| 0xff - i).collect())),
         ("pre single zero byte".into(), KeyIdSpec::Pre(vec![0])),
         ("pre empty".into(), KeyIdSpec::Pre(vec![])),
+        // identifiers that read like DER themselves: an OCTET STRING of exactly the remaining length, a SEQUENCE, a BIT STRING
+        ("pre 20 that reads as a nested OCTET STRING".into(), KeyIdSpec::Pre(std::iter::once(0x04).chain(std::iter::once(0x12)).chain((0..18u8).map(|i| 0xa0 ^ i)).collect())),
+        ("pre 4 that reads as OCTET STRING 04 02 xx xx".into(), KeyIdSpec::Pre(vec![0x04, 0x02, 0xbe, 0xef])),
+        ("pre 8 that reads as SEQUENCE { [0] 4 octets }".into(), KeyIdSpec::Pre(vec![0x30, 0x06, 0x80, 0x04, 1, 2, 3, 4])),
     ]
 }
 
